@@ -101,6 +101,15 @@ Get == /\ Ev("Get")
        /\ cnt' = Bump(cnt, "getters")
        /\ UNCHANGED <<keyref, getref, mcache, mabs, seqd>>
 
+\* a getter on a state DERIVED from another one (State::update_temperature after a history of getters on the parent) against the same getter on a state
+\* built directly at the new conditions: nothing evaluated on the parent may show through
+DGet == /\ Ev("DGet")
+        /\ Report("C11.derived_state_getter_value", <<E.how, E.g, E.after, E.v, E.r, l>>,
+                  /\ Len(E.v) = Len(E.r)
+                  /\ \A i \in 1..Len(E.r) : Close(E.v[i], E.r[i]) \/ (FIsNaN(E.v[i]) /\ FIsNaN(E.r[i])))
+        /\ cnt' = BumpAll(cnt, {"derived_state_getters"} \cup (IF E.g \in ToSet(E.after) THEN {"derived_state_getters_evaluated_on_parent_before"} ELSE {}))
+        /\ UNCHANGED <<keyref, getref, mcache, mabs, seqd>>
+
 Clone == /\ Ev("Clone")
          /\ mcache' = (E.dst :> (IF E.src \in DOMAIN mcache THEN mcache[E.src] ELSE <<>>)) @@ mcache
          /\ mabs' = (E.dst :> (IF E.src \in DOMAIN mabs THEN mabs[E.src] ELSE SC!Empty)) @@ mabs
@@ -127,7 +136,7 @@ Diagram == /\ Ev("Diagram")
                    /\ cnt' = BumpAll(cnt, {"diagrams_par"} \cup (IF E.chunk < E.n - 1 /\ E.threads > 1 THEN {"diagrams_par_multi_chunk"} ELSE {}))
            /\ UNCHANGED <<keyref, getref, mcache, mabs>>
 
-Next == /\ (Begin \/ Refs \/ Cache \/ Req \/ Get \/ Clone \/ Diagram)
+Next == /\ (Begin \/ Refs \/ Cache \/ Req \/ Get \/ DGet \/ Clone \/ Diagram)
         /\ hk' = IF E.ev = "Cache" THEN <<ObjOf(E.ctx), E.req>> ELSE <<>>
         /\ (l' > NRec => PrintT("STATS " \o ToJson(cnt')))
 
